@@ -139,6 +139,7 @@ func cmdCheck(args []string) int {
 	keep := fs.Bool("keep", false, "keep smt files")
 	fs.Parse(args)
 	keepFiles = *keep
+	siteCoversComplete = *tier == "thorough"
 	t0 := time.Now()
 	g, err := loadGen(*repo, []string{"./..."}, filepath.Join(*verif, "contracts", "stubs"))
 	if err != nil {
@@ -177,6 +178,17 @@ func cmdCheck(args []string) int {
 		quickMs, slowMs = 10000, 60000
 	}
 	sem := make(chan struct{}, 16)
+	// quick tier: an obligation listed as a known finding is not raced again once the incremental session left it
+	// undecided (it is reported as KNOWN-FINDING either way; the thorough tier re-examines it with every solver)
+	knownQuick = map[string]bool{}
+	if *tier != "thorough" {
+		var kf knownFile
+		if data, err := os.ReadFile(filepath.Join(*verif, "known_findings.json")); err == nil && json.Unmarshal(data, &kf) == nil {
+			for _, f := range kf.Findings {
+				knownQuick[f.Obligation] = true
+			}
+		}
+	}
 	results := make([]*funcResult, len(keys))
 	// generation is sequential (shared canonical-name tables), solving parallel
 	var wg sync.WaitGroup
